@@ -25,6 +25,8 @@ RT_FILES = ["map.go", "alg.go", "hash64.go", "z_map.go", "type.go", "errors.go",
 
 # attribute classes (harness `why`) that are explained by a listed finding; anything else is a new violation
 CLASS_WHAT = {
+    "e2e:named-func-type-identified-with-underlying": "a defined func type and its underlying func type are one dynamic type at run time (MatchesClosure ignores the name)",
+    "e2e:struct-tags-dropped-with-func-field": "struct types with a func-typed field that differ only in tags are one dynamic type at run time (ssa cvtStruct drops the tags)",
     "samename:tag": "struct types differing only in a field TAG get the same run-time name",
     "samename:embedded-name": "struct types whose embedded fields have different NAMES (alias vs target, byte vs uint8) but the same type get the same run-time name",
     "samename:method-pkg": "interface types whose unexported methods come from different packages get the same run-time name",
@@ -41,7 +43,7 @@ PKG_ORDER = ["p", "q", "x", "d", "r"]
 
 def package_source(pkg, decls):
     imps = ['import "unsafe"'] + ['import %s "%s"' % (tg.pkg_name(i), tg.pkg_path(i)) for i in IMPORTS[pkg]]
-    uses = ["var _ unsafe.Pointer"] + ["var _ %s.T" % tg.pkg_name(i) for i in IMPORTS[pkg]]
+    uses = ["var _ unsafe.Pointer", "const pkgID = %d" % (PKG_ORDER.index(pkg) + 1)] + ["var _ %s.T" % tg.pkg_name(i) for i in IMPORTS[pkg]]
     return "package %s\n\n%s\n\n%s\n%s\n%s\n" % (tg.pkg_name(pkg), "\n".join(imps), "\n".join(uses), tg.PRELUDE_COMMON, "\n".join(decls))
 
 
@@ -117,6 +119,17 @@ CORPUS_PAIRS = [
     ("corpus:field-order", 'struct{ A int; B string }', "r", 'struct{ B string; A int }', "r"),
     ("corpus:field-name-type-shift", 'struct{ A, B int }', "r", 'struct{ A int; B int }', "r"),
     ("corpus:named-underlying", 'p.T', "r", 'struct{ X int }', "r"),
+    ("corpus:named-func-vs-underlying", 'p.Fn', "r", 'func(int) string', "r"),
+    ("corpus:underlying-vs-named-func", 'func(int) string', "r", 'p.Fn', "r"),
+    ("corpus:named-func-same", 'p.Fn', "r", 'p.Fn', "r"),
+    ("corpus:named-func-pkg", 'p.Fn', "r", 'q.Fn', "r"),
+    ("corpus:named-func-nested", '[]p.Fn', "r", '[]func(int) string', "r"),
+    ("corpus:named-slice-vs-underlying", 'p.Sl', "r", '[]int', "r"),
+    ("corpus:named-map-vs-underlying", 'p.Mp', "r", 'map[string]int', "r"),
+    ("corpus:named-chan-vs-underlying", 'p.Ch', "r", 'chan int', "r"),
+    ("corpus:named-pointer-vs-underlying", 'p.Ptr', "r", '*p.T', "r"),
+    ("corpus:tag-with-func-field", 'struct{ F func(); A int "x:1" }', "r", 'struct{ F func(); A int "x:2" }', "r"),
+    ("corpus:tag-with-func-field-none", 'struct{ A int "x:1"; F func(int) }', "r", 'struct{ A int; F func(int) }', "r"),
 ]
 
 
@@ -200,7 +213,7 @@ def gen_impls(rng, n):
                  "interface{ Zeta(); Beta(int) string }", "interface{ Zeta(); alpha() }", "interface{ Beta(int) string; gamma() error }",
                  "error", "interface{ m() }", "interface{ M() int; k() }", "interface{ p.K; M() int }", "interface{ a() int }"]
         # fixed corpus first
-        for op, itf in [("MixT", "Mix"), ("*MixT", "Mix"), ("struct{ p.Xa; q.Xb }", "interface{ p.Ka; q.Kb }"), ("p.T", "p.I"), ("*p.T", "p.J"),
+        for op, itf in [("UniT", "Uni"), ("*UniT", "Uni"), ("p.UniT", "p.Uni"), ("UniT", "interface{ Zc() int; \u00c4b() int }"), ("MixT", "Mix"), ("*MixT", "Mix"), ("struct{ p.Xa; q.Xb }", "interface{ p.Ka; q.Kb }"), ("p.T", "p.I"), ("*p.T", "p.J"),
                         ("p.T", "p.J"), ("p.T", "p.K"), ("p.T", "interface{ k() }"), ("T", "interface{ k() }"), ("p.MixT", "p.Mix"),
                         ("struct{ p.MixT }", "p.Mix"), ("q.MixT", "p.Mix"), ("*p.G[int]", "interface{ Get() int }"),
                         ("*p.G[string]", "interface{ Get() int }"), ("Mix", "interface{ Zeta(); alpha() }"), ("p.Mix", "interface{ Zeta(); alpha() }")]:
@@ -284,6 +297,7 @@ def run(ctx, args):
     BATCH = 5000
     pair_lines, impl_lines = [], []
     pair_cmp = {}
+    pair_attrs = {}
     for b0 in range(0, len(pairs), BATCH):
         chunk = pairs[b0:b0 + BATCH]
         job = assemble([p for _, p in chunk], impls if b0 == 0 else [])
@@ -295,10 +309,11 @@ def run(ctx, args):
             raise RuntimeError("harness failed on batch %d: %s %s" % (b0, p.stdout[-3000:], p.stderr[-3000:]))
         for line in p.stdout.split("\n"):
             if line.startswith("pair "):
-                f = line.split(" ", 6)
+                f = line.split(" ", 7)
                 why, cmpf = f[5].rsplit(",", 1)
-                pair_lines.append((b0 + int(f[1]), f[2] == "1", f[3], f[4], why, f[6]))
+                pair_lines.append((b0 + int(f[1]), f[2] == "1", f[3], f[4], why, f[7]))
                 pair_cmp[b0 + int(f[1])] = cmpf
+                pair_attrs[b0 + int(f[1])] = f[6]
             elif line.startswith("impl "):
                 impl_lines.append(line)
     ctx.log("harness: %d pairs, %d implements cases named by the real ssa/abi" % (len(pair_lines), len(impl_lines)))
@@ -463,24 +478,38 @@ def run(ctx, args):
             enc = " ".join("%s %d %d" % (hexs(a), b, c) for a, b, c in v)
             for e in (t[:2] or [("M", 1, 0)]):
                 extra.append("find v: %s | %s %d" % (enc, hexs(e[0]), e[1]))
-    for _ in range(300):
-        a = (rng.randint(1, 4), rng.randint(0, 1), rng.randint(1, 3))
-        bdesc = rng.choice([None, (rng.randint(1, 8), rng.randint(0, 1), rng.randint(1, 3))])
-        # a descriptor id determines its other attributes
-        a = (a[0], a[0] % 2, a[0] % 3 + 1)
-        if bdesc:
-            bdesc = (bdesc[0], bdesc[0] % 2, bdesc[0] % 3 + 1)
-        extra.append("closure %d %d %d | %s" % (a + (("%d %d %d" % bdesc) if bdesc else "none",)))
+    # MatchesClosure: descriptors are determined by their id (closure flag, $f type, named flag); the spec: a closure type
+    # matches itself, and two UNNAMED closure types with the same func type match (reflect.MakeFunc builds such types)
+    def cdesc(k):
+        return (k, 1 if k % 4 else 0, k % 3 + 1, 1 if k % 5 == 0 else 0)
+    p0, _, _ = run_lines([nat], ["closure 5 1 7 1 | 6 1 7 0"])
+    closure_fixed = p0[0] == "0"
+    ctx.coverage["MatchesClosure_variant"] = "named closure types match only themselves (fixes/C07-3.diff)" if closure_fixed else "the name of a defined func type is ignored (pinned tree)"
+    closure_cases = []
+    for _ in range(400):
+        a = cdesc(rng.randint(1, 12))
+        bdesc = None if rng.random() < 0.1 else cdesc(rng.randint(1, 12))
+        closure_cases.append((a, bdesc))
+        extra.append("closure %d %d %d %d | %s" % (a + (("%d %d %d %d" % bdesc) if bdesc else "none",)))
+    n_find = len(extra) - len(closure_cases)
     r3, _, e3 = run_lines([nat], extra)
-    m3, _, e4 = run_lines([modeld], extra)
+    m3, _, e4 = run_lines([modeld], [x.replace("closure ", "closure %d " % (1 if closure_fixed else 0), 1) if x.startswith("closure ") else x for x in extra])
     for x, a, b in zip(extra, r3, m3):
         evaluations += 1
         if a != b:
             corr_bad.append((0, "%s: real %s model %s" % (x, a, b), None))
+    for (a, bdesc), real in zip(closure_cases, r3[n_find:]):
+        spec = bdesc is not None and (a[0] == bdesc[0] or (a[1] == 1 and bdesc[1] == 1 and a[2] == bdesc[2] and not a[3] and not bdesc[3]))
+        # (T is the asserted closure type: the compiler calls MatchesClosure only for closure T)
+        if a[1] == 1 and (real == "1") != spec:
+            spec_fail += 1
+            named_only = bdesc is not None and bdesc[1] == 1 and a[2] == bdesc[2] and (a[3] or bdesc[3])
+            key = "matchesclosure:named-func-type" if (real == "1" and named_only) else "matchesclosure:%s|%s" % (a, bdesc)
+            ctx.report(key, "runtime MatchesClosure(T, V) = %s for T=%s V=%s (id, closure, $f type, named)" % (real, a, bdesc), {"T": a, "V": bdesc, "native": real})
     stats["findMethod/MatchesClosure lines"] = len(extra)
 
     # ---------------------------------------------------------------- (3) end to end
-    e2e_info = run_e2e(ctx, stats, pairs, pair_lines, pair_cmp, impls, impl_lines, specs, metas)
+    e2e_info = run_e2e(ctx, stats, pairs, pair_lines, pair_cmp, impls, impl_lines, specs, metas, pair_attrs)
 
     # ---------------------------------------------------------------- verdict
     if specval_bad:
@@ -536,12 +565,12 @@ func init() { _ = unsafe.Pointer(nil) }
 
 def e2e_package(pkg, body):
     imports = ['import "unsafe"'] + ['import %s "%s/%s"' % (i, tg.MOD, i) for i in IMPORTS[pkg]]
-    uses = ["var _ unsafe.Pointer"] + ["var _ %s.T" % i for i in IMPORTS[pkg]]
+    uses = ["var _ unsafe.Pointer", "const pkgID = %d" % (PKG_ORDER.index(pkg) + 1)] + ["var _ %s.T" % i for i in IMPORTS[pkg]]
     name = "main" if pkg == "r" else pkg
     return "package %s\n\n%s\n\n%s\n%s\n%s\n" % (name, "\n".join(imports), "\n".join(uses), tg.PRELUDE_COMMON, body)
 
 
-def run_e2e(ctx, stats, pairs, pair_lines, pair_cmp, impls, impl_lines, specs, metas):
+def run_e2e(ctx, stats, pairs, pair_lines, pair_cmp, impls, impl_lines, specs, metas, pair_attrs):
     """One generated three-package program; every case prints one line; the same source is built by llgo (from the
     working tree) and by the reference toolchain, the two outputs are compared line by line."""
     from vlib import e2e
@@ -628,13 +657,20 @@ def run_e2e(ctx, stats, pairs, pair_lines, pair_cmp, impls, impl_lines, specs, m
                            % (cn, usrc, usrc, cn, cn, cn, cn))
         case_meta.append(("uncomparable", usrc))
         main_calls.append("case%d()" % cn)
+    # a method called through an interface must be the method a direct call reaches: interface{ p.Ka; q.Ka } has TWO methods
+    # named `a` (one per package); each package's generic CallKa calls ITS `a` through a value of that interface type
+    cn = len(case_meta)
+    bodies["r"].append(("func case%d() {\n\tvar b interface {\n\t\tp.Ka\n\t\tq.Ka\n\t} = struct {\n\t\tp.Xa\n\t\tq.Xa2\n\t}{}\n"
+                        "\tprintln(%d, \"imethod\", p.CallKa(b), q.CallKa(b))\n\tprintln(%d, \"converted\", p.CallKa[p.Ka](b), q.CallKa[q.Ka](b))\n}\n") % (cn, cn, cn))
+    case_meta.append(("imethod", "interface{ p.Ka; q.Ka } over struct{ p.Xa; q.Xa2 }"))
+    main_calls.append("case%d()" % cn)
     # implements cases (home r only), with the method call through the interface for two known interfaces
     n_impl = 0
     for i, line in enumerate(impl_lines):
         (op, itf, home), t, v, op_is_iface = metas[i]
-        if home != "r" or n_impl >= want_impl and i >= 16:
+        if home != "r" or n_impl >= want_impl and i >= 20:
             continue
-        if i >= 16 and (i * 7919) % 11 != 0:
+        if i >= 20 and (i * 7919) % 11 != 0:
             continue
         cn = len(case_meta)
         call = ""
@@ -685,6 +721,9 @@ def run_e2e(ctx, stats, pairs, pair_lines, pair_cmp, impls, impl_lines, specs, m
         if a == b:
             continue
         diffs += 1
+        if kind == "imethod":
+            ctx.report("e2e:imethod-slot-by-name", "a method called through an interface value is not the method a direct call reaches", {"case": ref_i, "reference_go": a, "llgo": b})
+            continue
         if kind == "uncomparable":
             ctx.report("e2e:uncomparable:%s" % ref_i, "interface == / map[any] insertion on a value of an uncomparable (or comparable) type behaves differently from the reference build",
                        {"type": ref_i, "reference_go": a, "llgo": b})
@@ -696,6 +735,13 @@ def run_e2e(ctx, stats, pairs, pair_lines, pair_cmp, impls, impl_lines, specs, m
             pre = "diffname:" if ident else "samename:"
             keys = [pre + w for w in why.split("+")] if why != "-" else []
             rep = {"a": pr["a"], "b": pr["b"], "reference_go": a, "llgo": b, "generator_label": label}
+            attrs = pair_attrs.get(ref_i, "-")
+            if not keys and attrs == "named-func-vs-underlying":
+                # names differ (ssa/abi is right); the run-time test for closure types ignores the NAME
+                keys = ["e2e:named-func-type-identified-with-underlying"]
+            elif not keys and attrs == "tag" and "func" in pr["a"][0] and "func" in pr["b"][0]:
+                # names differ (tags are hashed); package ssa rebuilds a struct with a func-typed field WITHOUT its tags
+                keys = ["e2e:struct-tags-dropped-with-func-field"]
             if keys and all(ctx.match_known(k) is not None for k in keys):
                 for k in keys:
                     ctx.report(k, CLASS_WHAT.get(k, k), rep)
